@@ -462,8 +462,8 @@ int c08_pps_main(int argc, char** argv) {
   double t0 = now_s();
   std::string bases = ARGS.opt("--bases", "poly,grid");
   std::string dims = ARGS.opt("--dims", "1,2");
-  int depth = atoi(ARGS.opt("--depth", ARGS.thorough() ? "8" : "6").c_str());
-  int menu_limit = atoi(ARGS.opt("--menu", ARGS.thorough() ? "10" : "6").c_str());
+  int depth = atoi(ARGS.opt("--depth", ARGS.thorough() ? "7" : "6").c_str());
+  int menu_limit = atoi(ARGS.opt("--menu", ARGS.thorough() ? "8" : "6").c_str());
   bool full = ARGS.opt("--reps", ARGS.thorough() ? "full" : "star") == "full";
   std::vector<std::unique_ptr<PsRunner> > rs;
   int base = 0;
